@@ -1,4 +1,167 @@
-/- Driver for C17 (stub: not built yet). -/
+/-
+Driver for C17 (line protocol).  Import-free apart from the model and the shared parser.
+Encodings: label `i:<int>` / `s:<string>`; label list `a,b,c` (`-` = empty); row `q,q,q` (`-` = empty);
+matrix = rows joined by `;` (`_` = no rows); list of matrices joined by `|`; NaN = `nan`.
+-/
+import SkVerif.Model.Proba
+import SkVerif.Drv.Parse
 namespace SkVerif.Drv.C17
-def handle (_toks : List String) : String := "bad-op"
+open SkVerif SkVerif.C17 SkVerif.Drv
+
+def showErr : Err → String
+  | .value => "E:value" | .key => "E:key" | .index => "E:index" | .type => "E:type"
+
+def parseLabel? (s : String) : Option Label :=
+  if s.startsWith "i:" then (parseInt? (s.drop 2).toString).map Label.int
+  else if s.startsWith "s:" then some (Label.str (s.drop 2).toString)
+  else none
+
+def parseLabels? (s : String) : Option (List Label) :=
+  if s == "-" then some [] else (s.splitOn ",").mapM parseLabel?
+
+def showLabel : Label → String
+  | .int i => s!"i:{i}"
+  | .str s => s!"s:{s}"
+
+def showLabels (l : List Label) : String :=
+  if l.isEmpty then "-" else ",".intercalate (l.map showLabel)
+
+def parseMat? (s : String) : Option Mat :=
+  if s == "_" then some [] else (s.splitOn ";").mapM parseRatList?
+
+def parseMats? (s : String) : Option (List Mat) :=
+  if s == "~" then some [] else (s.splitOn "|").mapM parseMat?
+
+def showMat (m : Mat) : String :=
+  if m.isEmpty then "_" else ";".intercalate (m.map showRatList)
+
+def showOMat (m : List (List (Option Rat))) : String :=
+  if m.isEmpty then "_" else ";".intercalate (m.map showORatList)
+
+def parseLabelRows? (s : String) : Option (List (List Label)) :=
+  if s == "_" then some [] else (s.splitOn ";").mapM parseLabels?
+
+def showScore (yTrue : List Label) : Except Err (List Label) → String
+  | .error e => showErr e
+  | .ok p => match score yTrue p with
+    | .ok q => showRat q
+    | .error e => showErr e
+
+def showPred : Except Err (List Label) → String
+  | .ok p => showLabels p
+  | .error e => showErr e
+
+/-- `forest <y_train> <members> <y_test>` -/
+def doForest (ytr : List Label) (members : List Mat) (yte : List Label) (avg : Bool) : String :=
+  let classes := classesOf ytr
+  let pr := if avg then avgProba members else forestProba classes.length members
+  match pr with
+  | .error e => s!"classes={showLabels classes} proba={showErr e}"
+  | .ok P =>
+    let pred := predictArgmax classes P
+    s!"classes={showLabels classes} proba={showMat P} pred={showPred pred} score={showScore yte pred}"
+
+def doVotes (classes : List Label) (P : Except Err (List (List (Option Rat)))) (draws : List Nat) (yte : List Label) : String :=
+  match P with
+  | .error e => s!"classes={showLabels classes} proba={showErr e}"
+  | .ok P =>
+    let pred := ensemblePredict classes P draws
+    s!"classes={showLabels classes} proba={showOMat P} pred={showPred pred} score={showScore yte pred}"
+
+def parseKey? (s : String) : Option Key :=
+  if s.startsWith "k" then (parseInt? (s.drop 1).toString).map Key.int
+  else if s.startsWith "K" then (parseIntList? (s.drop 1).toString).map Key.ints
+  else if s.startsWith "n" then some (Key.name (s.drop 1).toString)
+  else if s.startsWith "N" then
+    let r := (s.drop 1).toString
+    some (Key.names (if r == "-" then [] else r.splitOn ","))
+  else none
+
+def parseEntry? (s : String) : Option Entry :=
+  if s.startsWith "d:" then (parseKey? (s.drop 2).toString).map (fun k => ⟨true, k⟩)
+  else if s.startsWith "e:" then (parseKey? (s.drop 2).toString).map (fun k => ⟨false, k⟩)
+  else none
+
+def parseEntries? (s : String) : Option (List Entry) := (s.splitOn ";").mapM parseEntry?
+
+def parseIvs? (s : String) : Option (List (Nat × Nat)) :=
+  if s == "-" then some []
+  else (s.splitOn ",").mapM (fun t => match t.splitOn ":" with
+    | [a, b] => do let a ← parseNat? a; let b ← parseNat? b; pure (a, b)
+    | _ => none)
+
+def showIvs (l : List (Nat × Nat)) : String :=
+  if l.isEmpty then "-" else ",".intercalate (l.map (fun p => s!"{p.1}:{p.2}"))
+
+def handle (toks : List String) : String :=
+  match toks with
+  | ["forest", ytr, mem, yte] =>
+    match parseLabels? ytr, parseMats? mem, parseLabels? yte with
+    | some ytr, some mem, some yte => doForest ytr mem yte false
+    | _, _, _ => "bad-op"
+  | ["reg", mem] =>
+    match parseMat? mem with
+    | some rows => match regPredict rows with
+      | .ok r => s!"pred={showRatList r}"
+      | .error e => s!"pred={showErr e}"
+    | none => "bad-op"
+  | ["boss", ytr, n, preds, draws, yte] =>
+    match parseLabels? ytr, parseNat? n, parseLabelRows? preds, parseNatList? draws, parseLabels? yte with
+    | some ytr, some n, some preds, some draws, some yte =>
+      let classes := classesOf ytr
+      doVotes classes (bossProba classes n preds) draws yte
+    | _, _, _, _, _ => "bad-op"
+  | ["cboss", ytr, n, preds, ws, draws, yte] =>
+    match parseLabels? ytr, parseNat? n, parseLabelRows? preds, parseRatList? ws, parseNatList? draws, parseLabels? yte with
+    | some ytr, some n, some preds, some ws, some draws, some yte =>
+      if preds.length ≠ ws.length then "bad-op"
+      else
+        let classes := classesOf ytr
+        doVotes classes (cbossProba classes n (preds.zip ws)) draws yte
+    | _, _, _, _, _, _ => "bad-op"
+  | ["indiv", ytr, preds] =>
+    match parseLabels? ytr, parseLabels? preds with
+    | some ytr, some preds =>
+      let classes := classesOf ytr
+      match indivProba classes preds with
+      | .ok P => s!"classes={showLabels classes} proba={showMat P}"
+      | .error e => s!"classes={showLabels classes} proba={showErr e}"
+    | _, _ => "bad-op"
+  | ["colens", ytr, cols, entries, mem, yte] =>
+    match parseLabels? ytr, parseEntries? entries, parseMats? mem, parseLabels? yte with
+    | some ytr, some es, some mem, some yte =>
+      let colNames := if cols == "-" then [] else cols.splitOn ","
+      match ceMembers colNames es with
+      | .error e => s!"cols={showErr e}"
+      | .ok cs =>
+        let shown := if cs.isEmpty then "~" else "|".intercalate (cs.map showNatList)
+        s!"cols={shown} " ++ doForest ytr mem yte true
+    | _, _, _, _ => "bad-op"
+  | ["base", ytr, P, yte] =>
+    match parseLabels? ytr, parseMat? P, parseLabels? yte with
+    | some ytr, some P, some yte =>
+      let classes := classesOf ytr
+      let pred := predictArgmax classes P
+      s!"classes={showLabels classes} pred={showPred pred} score={showScore yte pred}"
+    | _, _, _ => "bad-op"
+  | ["deleg", ytr, pred, yte] =>
+    match parseLabels? ytr, parseLabels? pred, parseLabels? yte with
+    | some ytr, some pred, some yte =>
+      s!"classes={showLabels (classesOf ytr)} score={showScore yte (.ok pred)}"
+    | _, _, _ => "bad-op"
+  | ["feat", X, ivs] =>
+    match parseMat? X, parseIvs? ivs with
+    | some X, some ivs => s!"feat={showOMat (transform X ivs)}"
+    | _, _ => "bad-op"
+  | ["tsfit", L, m, nEst, draws] =>
+    match parseNat? L, parseNat? m, parseNat? nEst, parseNatList? draws with
+    | some L, some m, some nEst, some draws =>
+      match fitIntervals L m nEst draws with
+      | .error e => s!"nint={nIntervals L} minint={minIntervalFit L m} fit={showErr e}"
+      | .ok (all, hs) =>
+        let shown := if all.isEmpty then "~" else "|".intercalate (all.map showIvs)
+        s!"nint={nIntervals L} minint={minIntervalFit L m} highs={showNatList hs} ivs={shown}"
+    | _, _, _, _ => "bad-op"
+  | _ => "bad-op"
+
 end SkVerif.Drv.C17
